@@ -39,7 +39,8 @@ LEVEL = "exploration"
 RULE = (
     "one base problem (classical+numeric+durative, quantifier variable) x all assignments of "
     "<= L names from U-NAME (17 adversarial identifiers) to 15 renameable items; level 3 uses the 9 "
-    "collision-relevant names; every assignment UP itself accepts is written with both writers; "
+    "collision-relevant names; every assignment UP itself accepts is written with both writers; a second PDDL+ "
+    "base (2 fluents, action, process, event) x all assignments of <= 2 of 9 names, PDDL writer; "
     "non-trivial = at least one item had to be renamed by a writer"
 )
 ASSUMPTIONS = [
@@ -81,6 +82,7 @@ def _assignments(level):
 
 def shards(tier, seed):
     out = [{"level": 0, "hist": True}]
+    out += [{"level": 1, "pp": j, "of": 8} for j in range(8)]
     for level in _levels(tier):
         n = sum(1 for _ in _assignments(level))
         k = {0: 1, 1: 4, 2: 64, 3: 320}[level]
@@ -94,6 +96,11 @@ def run_shard(shard, tier, seed):
     if shard.get("hist"):
         run_histories(acc)
         return acc
+    if "pp" in shard:
+        for i, assign in enumerate(pp_assignments()):
+            if i % shard["of"] == shard["pp"]:
+                check_pp(assign, acc)
+        return acc
     for i, assign in enumerate(_assignments(shard["level"])):
         if i % shard["of"] == shard["part"]:
             check_case(assign, acc)
@@ -102,7 +109,9 @@ def run_shard(shard, tier, seed):
 
 def replay(case):
     acc = Acc()
-    if case.get("kind") == "hist":
+    if case.get("kind") == "pp":
+        check_pp(tuple(tuple(a) for a in case["assign"]), acc)
+    elif case.get("kind") == "hist":
         run_histories(acc, only=(case["first"], case["second"]))
     else:
         assign = tuple(((ns, tuple(it) if isinstance(it, list) else it), nm) for (ns, it), nm in case["assign"])
@@ -159,6 +168,44 @@ def _namespaces(prob):
     return out
 
 
+def judge_pddl(w, spaces, kws, viol):
+    """valid / keyword / injective / inverse / total on the PDDL writer's public lookups -> number of
+    items the writer renamed"""
+    import unified_planning as up
+    from unified_planning.exceptions import UPException
+
+    mangled_p = 0
+    for label, items in spaces:
+        names = {}
+        for x in items:
+            try:
+                n = w.get_pddl_name(x)
+            except UPException as e:
+                viol("pddl:total", "%s %r has no PDDL name after writing (%s)" % (label, _nm(x), e), x)
+                continue
+            is_var = isinstance(x, (up.model.Parameter, up.model.Variable))
+            if n.lstrip("?") != _nm(x).lower():
+                mangled_p += 1
+            if not (PDDL_VAR if is_var else PDDL_NAME).match(n):
+                viol("pddl:valid", "%s %r is written as %r, not a PDDL identifier" % (label, _nm(x), n), x)
+            if not is_var and n.lower() in kws:
+                viol("pddl:keyword", "%s %r is written as the keyword %r" % (label, _nm(x), n), x)
+            k = n.lower()
+            if k in names and names[k] != x:
+                viol("pddl:injective", "%s: %r and %r are both written %r/%r" % (label, _nm(names[k]), _nm(x), w.get_pddl_name(names[k]), n), names[k], x)
+            names[k] = x
+            try:
+                back = w.get_item_named(n)
+                if not (back == x):
+                    viol("pddl:inverse", "get_item_named(get_pddl_name(%r)=%r) returns %r" % (_nm(x), n, _nm(back)), x, back)
+                elif w.get_pddl_name(back) != n:
+                    viol("pddl:inverse", "get_pddl_name(get_item_named(%r)) = %r" % (n, w.get_pddl_name(back)), x)
+            except UPException as e:
+                viol("pddl:inverse", "get_item_named(%r) raises %s" % (n, e), x)
+
+    return mangled_p
+
+
 def check_case(assign, acc):
     import unified_planning as up
     from unified_planning.exceptions import UPException
@@ -204,33 +251,7 @@ def check_case(assign, acc):
         kws = set(io.pristine("GENERAL_PDDL_KEYWORDS")) | set(io.pristine("TEMPORAL_PDDL_KEYWORDS"))
         if prob.trajectory_constraints:
             kws |= set(io.pristine("PDDL3_KEYWORDS"))
-        for label, items in spaces:
-            names = {}
-            for x in items:
-                try:
-                    n = w.get_pddl_name(x)
-                except UPException as e:
-                    viol("pddl:total", "%s %r has no PDDL name after writing (%s)" % (label, _nm(x), e), x)
-                    continue
-                is_var = isinstance(x, (up.model.Parameter, up.model.Variable))
-                if n.lstrip("?") != _nm(x).lower():
-                    mangled_p += 1
-                if not (PDDL_VAR if is_var else PDDL_NAME).match(n):
-                    viol("pddl:valid", "%s %r is written as %r, not a PDDL identifier" % (label, _nm(x), n), x)
-                if not is_var and n.lower() in kws:
-                    viol("pddl:keyword", "%s %r is written as the keyword %r" % (label, _nm(x), n), x)
-                k = n.lower()
-                if k in names and names[k] != x:
-                    viol("pddl:injective", "%s: %r and %r are both written %r/%r" % (label, _nm(names[k]), _nm(x), w.get_pddl_name(names[k]), n), names[k], x)
-                names[k] = x
-                try:
-                    back = w.get_item_named(n)
-                    if not (back == x):
-                        viol("pddl:inverse", "get_item_named(get_pddl_name(%r)=%r) returns %r" % (_nm(x), n, _nm(back)), x, back)
-                    elif w.get_pddl_name(back) != n:
-                        viol("pddl:inverse", "get_pddl_name(get_item_named(%r)) = %r" % (n, w.get_pddl_name(back)), x)
-                except UPException as e:
-                    viol("pddl:inverse", "get_item_named(%r) raises %s" % (n, e), x)
+        mangled_p = judge_pddl(w, spaces, kws, viol)
     # ---------------- ANML
     try:
         a = ANMLWriter(prob)
@@ -264,6 +285,94 @@ def check_case(assign, acc):
     acc.outcome("pddl-mangled=%d anml-mangled=%d" % (mangled_p, mangled_a))
     if len(assign) <= 1:
         acc.sample({"assign": lab})
+
+
+# ------------------------------------------------------------------------------ PDDL+ family
+# processes and events are written into the domain like actions: a second base problem built with
+# the model API (fluents f:bool, x:real; action act; process pr; event ev), every assignment of
+# <= 2 names of PP_NAMES to its five items
+PP_ITEMS = ["f", "x", "act", "pr", "ev"]
+PP_NAMES = ["heat", "Heat", "HEAT", "heat_0", "a-b", "a_b", "at", "and", "increase"]
+
+
+def pp_assignments():
+    out = [()]
+    for i, it in enumerate(PP_ITEMS):
+        for n in PP_NAMES:
+            out.append(((it, n),))
+    for i, a in enumerate(PP_ITEMS):
+        for b in PP_ITEMS[i + 1:]:
+            for na in PP_NAMES:
+                for nb in PP_NAMES:
+                    if na != nb:
+                        out.append(((a, na), (b, nb)))
+    return out
+
+
+def pp_build(assign):
+    import unified_planning as up
+    from unified_planning.model.natural_transition import Process, Event
+    from mc.gen.spec import fresh_env
+
+    env = fresh_env()
+    tm, em = env.type_manager, env.expression_manager
+    nm = {k: k for k in PP_ITEMS}
+    nm.update(dict(assign))
+    f = up.model.Fluent(nm["f"], tm.BoolType(), environment=env)
+    x = up.model.Fluent(nm["x"], tm.RealType(), environment=env)
+    prob = up.model.Problem("pp", env)
+    prob.add_fluent(f, default_initial_value=False)
+    prob.add_fluent(x, default_initial_value=0)
+    act = up.model.InstantaneousAction(nm["act"], _env=env)
+    act.add_effect(f, True)
+    pr = Process(nm["pr"], _env=env)
+    pr.add_precondition(em.FluentExp(f))
+    pr.add_increase_continuous_effect(x, 1)
+    ev = Event(nm["ev"], _env=env)
+    ev.add_precondition(em.GE(em.FluentExp(x), 5))
+    ev.add_effect(f, False)
+    prob.add_action(act)
+    prob.add_process(pr)
+    prob.add_event(ev)
+    prob.add_goal(em.GE(em.FluentExp(x), 5))
+    return prob
+
+
+def check_pp(assign, acc):
+    from unified_planning.io import PDDLWriter
+
+    io.reset_writer_state()
+    case = {"kind": "pp", "assign": [list(a) for a in assign]}
+    lab = ",".join(sorted("pp:%s=%r" % (("fluent" if it in ("f", "x") else {"act": "action", "pr": "process", "ev": "event"}[it]), n) for it, n in assign)) or "pp:base"
+    try:
+        prob = pp_build(assign)
+    except Exception as e:
+        acc.count("skipped_up_rejects_model")
+        acc.outcome("build-rejected:" + io.exc_name(e))
+        return
+    acc.count("evaluations")
+
+    def viol(sub, what, *items):
+        acc.violation("%s|%s" % (sub, lab), what, case)
+
+    try:
+        w = PDDLWriter(prob)
+        w.get_domain()
+        w.get_problem()
+    except Exception as e:
+        if io.is_documented_writer_rejection(e):
+            acc.outcome("pddl-writer-rejects:" + io.exc_name(e))
+            return
+        viol("pddl:write:raises:" + io.exc_name(e), "PDDLWriter raised %s: %s" % (io.exc_name(e), e))
+        return
+    kws = set(io.pristine("GENERAL_PDDL_KEYWORDS"))  # no durative action: the temporal keywords are free
+    # PDDL has one name table per domain: the writer's lookups are global, so all items are judged
+    # as one namespace for the inverse clause; injectivity is demanded among fluents and among the
+    # action-like items (actions, processes, events)
+    spaces = [("fluents", list(prob.fluents)), ("actions/processes/events", list(prob.actions) + list(prob.processes) + list(prob.events))]
+    if judge_pddl(w, spaces, kws, viol):
+        acc.count("nontrivial")
+    acc.outcome("pp-written")
 
 
 def _label(assign):
